@@ -86,7 +86,7 @@ def run(ctx):
     runs.append(run_replay(ctx, "gen_nodedb_b.cfg", 300 if q else 40, gated=True))
     for _, s in runs:
         verdicts(ctx, s)
-    gates = runs[3][1]["gates"]
+    gates = runs[-1][1]["gates"]
     want = {"badger.commit.nodes_flushed", "badger.finalize.batch_flushed", "badger.finalize.meta_committed", "badger.prune.batch_flushed",
             "path.newbatch.seq_reserved", "path.commit.seqno_committed", "path.commit.meta_flushed", "path.finalize.copy_flushed",
             "path.finalize.copymeta_flushed", "path.finalize.delete_flushed", "path.finalize.deletemeta_flushed",
@@ -100,7 +100,7 @@ def run(ctx):
             ops[k] = ops.get(k, 0) + v
     ctx.coverage.update(
         replayed_behaviours=sum(s["behaviours"] for _, s in runs), replay_runs=sum(s["runs"] for _, s in runs),
-        replay_steps=sum(s["steps"] for _, s in runs), op_counts=ops, gated_reads=runs[3][1]["gated_reads"], gates=gates,
+        replay_steps=sum(s["steps"] for _, s in runs), op_counts=ops, gated_reads=runs[-1][1]["gated_reads"], gates=gates,
         not_accepted_by_pathbadger=sum(s["not_accepted_by_pathbadger"] for _, s in runs),
         classes={i: s["classes"] for i, (_, s) in enumerate(runs)},
         traces_validated_against_impl=sum(s["runs"] for _, s in runs), gen_states=sum(g.distinct for g, _ in runs),
